@@ -40,3 +40,38 @@ class CodecHooks(Hooks):
 
 def codec_hooks():
     return CodecHooks()
+
+
+HANDLER_ASSUMPTIONS = [
+    "B1/B2: backend contract - an accepted update yields the record described in DESIGN 3; a synchronous checkpoint returns only after the response containing the new record of every updated operation was merged (proved for the consumer in C03.consumer.ack_after_apply)",
+    "U: the workflow is deterministic, so the record found under this operation's id has the operation type of this kind of operation; custom SerDes return str; user code lets BaseException-only SDK signals propagate",
+    "contract of ExecutionState.get_checkpoint_result / create_checkpoint used at call sites (their bodies are verified against it in the state contracts, C01.state.lookup_faithful / C03.state.sync_blocks)",
+    "logging calls are effect-free and do not raise (dropped by extraction)",
+    "time.time() / datetime.now() are arbitrary non-decreasing reals",
+]
+
+SHARED_FUNCS = ["operation.base.OperationExecutor.process", "state.CheckpointedResult.create_from_operation", "state.CheckpointedResult.raise_callable_error",
+                "lambda_service.ErrorObject.from_exception", "lambda_service.ErrorObject.to_callable_runtime_error", "suspend.suspend_with_optional_resume_delay",
+                "suspend.suspend_with_optional_resume_timestamp", "exceptions.TimedSuspendExecution.from_delay", "exceptions.TimedSuspendExecution.from_datetime",
+                "serdes.serialize", "serdes.deserialize"]
+
+
+def handler_preamble(chk, ex, funcs):
+    for f in funcs + SHARED_FUNCS:
+        chk.function(f, "verified (body executed symbolically, inlined at its call sites)")
+    for f in ("state.CheckpointedResult.is_succeeded", "state.CheckpointedResult.is_failed", "state.CheckpointedResult.is_started", "state.CheckpointedResult.is_pending",
+              "state.CheckpointedResult.is_existent", "state.CheckpointedResult.is_replay_children", "state.CheckpointedResult.get_next_attempt_timestamp", "config.Duration.to_seconds"):
+        chk.function(f, "transparent")
+    chk.function("state.ExecutionState.get_checkpoint_result", "contract used at call sites")
+    chk.function("state.ExecutionState.create_checkpoint", "contract used at call sites")
+    for a in HANDLER_ASSUMPTIONS:
+        chk.assume(a)
+    chk.trust("python semantics of the stated subset as encoded by pyvc (DESIGN 2.3)")
+    chk.trust("z3 5.1.0")
+    chk.trust("user functions, retry/wait strategies, custom SerDes, summary generators: opaque (any value or any exception)")
+    chk.paths += len(ex.paths)
+    for k in ex.eng.stats:
+        chk.engine_stats[k] = chk.engine_stats.get(k, 0) + ex.eng.stats[k]
+    chk.require_sat(f"{chk.prop}.{ex.kind}.pre_satisfiable", ex.st0.pc, desc="vacuity guard: the precondition of the handler exploration is satisfiable")
+    if not ex.paths:
+        chk.fault(f"no paths explored for {ex.kind}")
